@@ -424,7 +424,19 @@ func check(surface string, mode int, data []byte, planted bool) string {
 		return fmt.Sprintf("surface %s mode %d: panic on a %d-byte input: %s", surface, mode, len(data), firstLines(o.Panic, 12))
 	}
 	if lim := kit.Budget(base, 512, len(data)); o.Alloc > lim {
-		return fmt.Sprintf("surface %s mode %d: allocated %d bytes decoding a %d-byte input (budget %d)", surface, mode, o.Alloc, len(data), lim)
+		// the allocation counter is process-wide: goroutines left behind by earlier cases (handshakes
+		// timing out in the background) are charged to whoever runs when they wake. An input that makes the
+		// decoder over-allocate does so every time; noise does not. Two more executions, smallest counts.
+		ev.Class("allocation-recheck")
+		for r := 0; r < 2 && o.Alloc > lim; r++ {
+			time.Sleep(200 * time.Millisecond)
+			if o2 := run(25 * time.Second); !o2.TimedOut && o2.Panic == "" && o2.Alloc < o.Alloc {
+				o.Alloc = o2.Alloc
+			}
+		}
+		if o.Alloc > lim {
+			return fmt.Sprintf("surface %s mode %d: allocated %d bytes decoding a %d-byte input (budget %d; smallest of 3 executions)", surface, mode, o.Alloc, len(data), lim)
+		}
 	}
 	if surface == "framing" {
 		if lim := kit.Budget(256<<10, 8, len(data)); o.Stack > lim {
